@@ -6,3 +6,8 @@ pub mod parser;
 pub mod printer;
 pub mod strings;
 pub mod schema;
+pub mod linecol;
+pub mod coerce;
+pub mod typesys;
+pub mod depth;
+pub mod introspect;
